@@ -277,8 +277,11 @@ impl UnverifiedBiscuit {
         };
 
         // we have to add the entire list of public keys here because
-        // they are used to validate 3rd party tokens
-        block.symbols.public_keys = self.symbols.public_keys.clone();
+        // they are used to validate 3rd party tokens; a third-party block
+        // refers to its own table of public keys, not to the token's
+        if block.external_key.is_none() {
+            block.symbols.public_keys = self.symbols.public_keys.clone();
+        }
         Ok(block)
     }
 
